@@ -476,3 +476,37 @@ def m_all(ip, args, kw, st, node):
             return [(all(ts), st)]
         return [(Sym(z3.And(*[z3.BoolVal(t) if isinstance(t, bool) else t for t in ts]), "bool"), st)]
     raise OutOfSubset("all", node)
+
+
+# --------------------------------------------------------------------------
+# _Schedule (a dict subclass): its dict content is the declared map field 'items'
+# --------------------------------------------------------------------------
+def _sched_map(ip, selfv, st):
+    return ip.read_field(selfv.t, "_Schedule", "_d", st)
+
+
+@model("_Schedule.__getitem__")
+def m_sched_getitem(ip, args, kw, st, node):
+    ml = _sched_map(ip, args[0], st)
+    return ip.index(ml, args[1], st, node)
+
+
+@model("_Schedule.__contains__")
+def m_sched_contains(ip, selfv, x, st):
+    ml = _sched_map(ip, selfv, st)
+    return z3.Select(ml.dom(st.heap), ip.coerce(x, "str"))
+
+
+@model("_Schedule.items")
+def m_sched_items(ip, args, kw, st, node):
+    return [(IterV("items", [_sched_map(ip, args[0], st), "items"]), st)]
+
+
+@model("_Schedule.keys")
+def m_sched_keys(ip, args, kw, st, node):
+    return [(IterV("items", [_sched_map(ip, args[0], st), "keys"]), st)]
+
+
+@model("_Schedule.values")
+def m_sched_values(ip, args, kw, st, node):
+    return [(IterV("items", [_sched_map(ip, args[0], st), "values"]), st)]
